@@ -181,6 +181,11 @@ func valOf(class string) *gnmi.TypedValue {
 		return &gnmi.TypedValue{Value: &gnmi.TypedValue_FloatVal{FloatVal: 1.5}}
 	case "decimal":
 		return &gnmi.TypedValue{Value: &gnmi.TypedValue_DecimalVal{DecimalVal: &gnmi.Decimal64{Digits: 15, Precision: 1}}}
+	case "decimal-p64":
+		// a precision beyond what fits the arithmetic of the renderers
+		return &gnmi.TypedValue{Value: &gnmi.TypedValue_DecimalVal{DecimalVal: &gnmi.Decimal64{Digits: 1, Precision: 64}}}
+	case "decimal-neg":
+		return &gnmi.TypedValue{Value: &gnmi.TypedValue_DecimalVal{DecimalVal: &gnmi.Decimal64{Digits: -5, Precision: 255}}}
 	case "json-valid":
 		return &gnmi.TypedValue{Value: &gnmi.TypedValue_JsonVal{JsonVal: []byte(`{"a":{"b":"v9"}}`)}}
 	case "json-invalid":
@@ -232,6 +237,14 @@ func extsOf(class string) []*gnmi_ext.Extension {
 	case "overrides-t1":
 		b, _ := proto.Marshal(&configapi.TargetVersionOverrides{Overrides: map[string]*configapi.TargetTypeVersion{"t1": {TargetType: world.ModelType, TargetVersion: world.ModelVersion}}})
 		return []*gnmi_ext.Extension{reg(configapi.TargetVersionOverridesID, b)}
+	case "overrides-empty":
+		// the extension is present, its payload decodes to no entries
+		return []*gnmi_ext.Extension{reg(configapi.TargetVersionOverridesID, []byte{})}
+	case "overrides-unknown-fields":
+		return []*gnmi_ext.Extension{reg(configapi.TargetVersionOverridesID, []byte{0x10, 0x01})}
+	case "overrides-nil-value":
+		// a map entry with a key and no value: field 1 (entry) { field 1 (key) "t1" }
+		return []*gnmi_ext.Extension{reg(configapi.TargetVersionOverridesID, []byte{0x0a, 0x04, 0x0a, 0x02, 't', '1'})}
 	case "master-arb":
 		return []*gnmi_ext.Extension{{Ext: &gnmi_ext.Extension_MasterArbitration{MasterArbitration: &gnmi_ext.MasterArbitration{}}}}
 	}
